@@ -1328,11 +1328,11 @@ def _eval(task):
     try:
         main = D.write_case(d, files)
         incdirs = [d, base.incdir]
-        r = D.call_api('from_file', main, incdirs)
+        r = D.call_api_confirmed('from_file', main, incdirs)
         out = {'id': task['id'], 'outcome': r['outcome'],
                'hash': D.sha(base.name + '\0' + '\0'.join('%s\0%s' % kv for kv in sorted(files.items())))}
         if r['outcome'] == 'ok':
-            e = D.call_api('effective', main, incdirs)
+            e = D.call_api_confirmed('effective', main, incdirs)
             out['effective'] = e.get('value') if e['outcome'] == 'ok' else None
             out['files'] = files
         elif r['outcome'] == 'cpe':
@@ -1416,7 +1416,7 @@ def run(ctx):
     base_eff, good = {}, []
     for b in bases:
         d = b.write(os.path.join(scratch, 'bases'))
-        r = D.call_api('from_file', os.path.join(d, MAIN), [d])
+        r = D.call_api_confirmed('from_file', os.path.join(d, MAIN), [d])
         if r['outcome'] != 'ok':
             ctx.corr_broken.append('C09 oracle: base document %s does not load (harness bug): %s' % (b.name, r))
             continue
@@ -1429,7 +1429,7 @@ def run(ctx):
         if fails:
             ctx.corr_broken.append('C09 oracle: base document %s does not generate/compile: %s' % (b.name, fails[0]))
             continue
-        e = D.call_api('effective', os.path.join(d, MAIN), [d])
+        e = D.call_api_confirmed('effective', os.path.join(d, MAIN), [d])
         base_eff[b.name] = D.strip_volatile(D.load_effective_text(e['value']))
         good.append(b)
 
